@@ -5078,7 +5078,9 @@ namespace awkward {
       builder.string(array, 1);
     }
     else if (ndim() == 1) {
-      char* array = reinterpret_cast<char*>(data());
+      // (a strided or reversed view is not one block of 'length' bytes)
+      NumpyArray contiguous_self = contiguous();
+      char* array = reinterpret_cast<char*>(contiguous_self.data());
       builder.string(array, length());
     }
     else {
